@@ -687,3 +687,68 @@ def c18_programs(backend):
             add(f"Select(EventDataset('ds'), lambda e: ({x}, {y}, e.PRIM('A').Count()))")
             add(f"Select(EventDataset('ds'), lambda e: e.PRIM('A').Select(lambda j: {x} if j.pt() > {y} else j.nTrk()))")
     return out
+
+
+# ------------------------------------------------------------------ C10: declared signatures x chains
+def c10_programs(backend):
+    v = VOCAB[backend]
+    P, E = v["prim"], v["prim_cls"]
+    T = "myns::Thing"
+    out = []
+
+    def prog(q, decls, enums=None, tags=()):
+        dm = DataModel(backend)
+        for cls, ms in decls:
+            dm.declare_method(cls, ms)
+        for full, (ns, vals) in (enums or {}).items():
+            dm.enums[full] = (ns, vals)
+        q = q.replace("PRIM", P)
+        out.append(Program(with_metadata(q, dm), backend, dm, src=q, tags=tuple(tags)))
+    obj = {0: MethodSpec("obj0", TObj(T, 0)), 1: MethodSpec("obj1", TObj(T, 1)), 2: MethodSpec("obj2", TObj(T, 2))}
+    for p_, ms in obj.items():
+        for d in (0, 1, 2):
+            val = MethodSpec("val", TNum("double"), deref_count=d)
+            prog(f"Select(EventDataset('ds'), lambda e: e.PRIM('A').Select(lambda j: j.{ms.name}().val()))", [(E, ms), (T, val)], tags=(f"p{p_}", f"d{d}"))
+            prog(f"Select(SelectMany(EventDataset('ds'), lambda e: e.PRIM('A')), lambda j: j.{ms.name}().val() + j.pt())", [(E, ms), (T, val)], tags=(f"p{p_}", f"d{d}"))
+        for kind in ("int", "float", "bool"):
+            prog(f"Select(EventDataset('ds'), lambda e: e.PRIM('A').Select(lambda j: j.{ms.name}().k()))", [(E, ms), (T, MethodSpec("k", TNum(kind)))], tags=(f"p{p_}", kind))
+        nxt = MethodSpec("nxt", TObj(T, 1))
+        prog(f"Select(EventDataset('ds'), lambda e: e.PRIM('A').Select(lambda j: j.{ms.name}().nxt().x()))", [(E, ms), (T, nxt)], tags=(f"p{p_}", "chain2"))
+        prog(f"Select(EventDataset('ds'), lambda e: e.PRIM('A').Select(lambda j: j.{ms.name}().nxt().nxt().x() + j.{ms.name}().x()))", [(E, ms), (T, nxt)], tags=(f"p{p_}", "chain3"))
+        prog(f"Select(EventDataset('ds'), lambda e: e.PRIM('A').Where(lambda j: j.{ms.name}().x() > 1.5).Select(lambda j: j.{ms.name}().y()))", [(E, ms), (T, MethodSpec("y", TNum("int")))], tags=(f"p{p_}", "where"))
+    # collections: by value / by pointer, of values / objects / object pointers, custom collection types
+    colls = {
+        "cv": TColl("std::vector<float>", TNum("float"), 0),
+        "cvi": TColl("std::vector<int>", TNum("int"), 0),
+        "cp": TColl("std::vector<float>", TNum("float"), 1),
+        "co": TColl(f"std::vector<{T}>", TObj(T, 0), 0),
+        "cop": TColl(f"std::vector<{T}*>", TObj(T, 1), 0),
+        "cc": TColl("myns::ThingColl", TObj(T, 1), 0),
+        "ccp": TColl("myns::ThingColl", TObj(T, 1), 1),
+    }
+    for name, t in colls.items():
+        ms = MethodSpec(name, t)
+        num = isinstance(t.elem, TNum)
+        el = "v" if num else "v.x()"
+        prog(f"Select(EventDataset('ds'), lambda e: e.PRIM('A').Select(lambda j: j.{name}().Select(lambda v: {el})))", [(E, ms)], tags=(name, "select"))
+        prog(f"Select(EventDataset('ds'), lambda e: e.PRIM('A').Select(lambda j: j.{name}().Count()))", [(E, ms)], tags=(name, "count"))
+        prog(f"Select(EventDataset('ds'), lambda e: e.PRIM('A').SelectMany(lambda j: j.{name}()).Select(lambda v: {el}))", [(E, ms)], tags=(name, "selectmany"))
+        prog(f"Select(EventDataset('ds'), lambda e: e.PRIM('A').Where(lambda j: j.{name}().Count() > 0).Select(lambda j: j.{name}().First(){'' if num else '.x()'}))", [(E, ms)], tags=(name, "first"))
+        prog(f"Select(EventDataset('ds'), lambda e: e.PRIM('A').Where(lambda j: j.{name}().Count() > 1).Select(lambda j: j.{name}()[1]{'' if num else '.x()'}))", [(E, ms)], tags=(name, "index"))
+        if num:
+            prog(f"Select(EventDataset('ds'), lambda e: e.PRIM('A').Select(lambda j: j.{name}()))", [(E, ms)], tags=(name, "column"))
+            prog(f"Select(EventDataset('ds'), lambda e: e.PRIM('A').Select(lambda j: j.{name}().Sum()))", [(E, ms)], tags=(name, "sum"))
+        else:
+            prog(f"Select(EventDataset('ds'), lambda e: e.PRIM('A').Select(lambda j: j.{name}().Where(lambda t: t.x() > 1.5).Select(lambda t: t.k())))", [(E, ms), (T, MethodSpec("k", TNum("int")))], tags=(name, "where"))
+            prog(f"Select(EventDataset('ds'), lambda e: e.PRIM('A').Select(lambda j: j.{name}().Select(lambda t: t.nxt().x())))", [(E, ms), (T, MethodSpec("nxt", TObj(T, 1)))], tags=(name, "chain"))
+    # collection returned by a method of a returned object
+    prog("Select(EventDataset('ds'), lambda e: e.PRIM('A').Select(lambda j: j.obj1().cv().Select(lambda v: v * 2)))",
+         [(E, obj[1]), (T, MethodSpec("cv", colls["cv"]))], tags=("chain-coll",))
+    # enums: argument, comparison
+    en = {"xAOD.Jet.Color": ("xAOD.Jet", ["Red", "Blue"])}
+    prog("Select(EventDataset('ds'), lambda e: e.PRIM('A').Where(lambda j: j.color() == xAOD.Jet.Color.Red).Count())", [(E, MethodSpec("color", TNum("int")))], enums=en, tags=("enum", "compare"))
+    prog("Select(EventDataset('ds'), lambda e: e.PRIM('A').Select(lambda j: j.weight(xAOD.Jet.Color.Blue)))", [], enums=en, tags=("enum", "argument"))
+    prog("Select(EventDataset('ds'), lambda e: e.PRIM('A').Select(lambda j: j.weight(xAOD.Jet.Color.Blue) if j.color() != xAOD.Jet.Color.Red else 0.0))", [(E, MethodSpec("color", TNum("int")))], enums=en, tags=("enum", "both"))
+    en1 = {"Top.Kind": ("Top", ["A", "B"])}
+    prog("Select(EventDataset('ds'), lambda e: e.PRIM('A').Select(lambda j: j.weight(Top.Kind.B)))", [], enums=en1, tags=("enum", "1level"))
+    return out
